@@ -91,7 +91,8 @@ class TLSH(object):
 
     def __call__(self,data,force=False):
         self.reset()
-        self.final(data,force).digest()
+        if self.final(data,force) is None: return None
+        self.digest()
         return self.lsh_code
 
     def digest(self):
